@@ -724,22 +724,26 @@ func (dc *ClientDnsConnection) AutodetectFragmentSize() (uint32, error) {
 			} else {
 				max = proposed
 			}
+			break
+		}
 
-			if max < 0 {
-				break
-			}
+		// Halve the search interval after every probed size, whether it worked or not: a size that does not
+		// get through (too big for the path, refused, garbled) must make us try a smaller one, not the same again.
+		fragmentRange = fragmentRange >> 1
 
-			fragmentRange = fragmentRange >> 1
+		if max == proposed {
+			/* Try bigger */
+			log.Tracef("%d ok, will try %d next.. ", proposed, proposed+fragmentRange)
+			proposed += fragmentRange
+		} else {
+			/* Try smaller */
+			log.Tracef("%d not ok, will try %d next.. ", proposed, proposed-fragmentRange)
+			proposed -= fragmentRange
+		}
 
-			if max == proposed {
-				/* Try bigger */
-				log.Tracef("%d ok, will try %d next.. ", proposed, proposed+fragmentRange)
-				proposed += fragmentRange
-			} else {
-				/* Try smaller */
-				log.Tracef("%d not ok, will try %d next.. ", proposed, proposed-fragmentRange)
-				proposed -= fragmentRange
-			}
+		if fragmentRange == 0 {
+			// nothing left to narrow down
+			break
 		}
 	}
 	if dc.Closed() {
